@@ -105,11 +105,13 @@ int cp_pdpub_ver(gt_t r, const gt_t g[3], const bn_t c, const gt_t e) {
 
 		if (!result || gt_cmp(t, g[1]) != RLC_EQ) {
 			gt_set_unity(r);
+			result = 0;
 		} else {
 			gt_copy(r, g[0]);
 		}
 	} RLC_CATCH_ANY {
-		result = RLC_ERR;
+		gt_set_unity(r);
+		result = 0;
 	}
 	RLC_FINALLY {
 		gt_free(t);
@@ -218,9 +220,11 @@ int cp_pdprv_ver(gt_t r, const gt_t g[4], const bn_t c, const gt_t e[2]) {
 
 		if (!result || gt_cmp(t, g[3]) != RLC_EQ) {
 			gt_set_unity(r);
+			result = 0;
 		}
 	} RLC_CATCH_ANY {
-		result = RLC_ERR;
+		gt_set_unity(r);
+		result = 0;
 	}
 	RLC_FINALLY {
 		gt_free(t);
@@ -324,11 +328,13 @@ int cp_lvpub_ver(gt_t r, const gt_t g[2], const bn_t c, const gt_t e) {
 
 		if (!result || gt_cmp(t, e) != RLC_EQ) {
 			gt_set_unity(r);
+			result = 0;
 		} else {
 			gt_copy(r, g[0]);
 		}
 	} RLC_CATCH_ANY {
-		result = RLC_ERR;
+		gt_set_unity(r);
+		result = 0;
 	}
 	RLC_FINALLY {
 		gt_free(t);
@@ -460,9 +466,11 @@ int cp_lvprv_ver(gt_t r, const gt_t g[4], const bn_t c, const gt_t e[2]) {
 
 		if (!result || gt_cmp(t, g[2]) != RLC_EQ) {
 			gt_set_unity(r);
+			result = 0;
 		}
 	} RLC_CATCH_ANY {
-		result = RLC_ERR;
+		gt_set_unity(r);
+		result = 0;
 	}
 	RLC_FINALLY {
 		gt_free(t);
